@@ -15,7 +15,7 @@ Local Open Scope Z_scope.
 (** * Requests *)
 
 Inductive cookie := CNone | CTok (sp : bytes).        (* the agh_session cookie: its value as sent *)
-Inductive basic := BNone | BCred (ok : bool).         (* Authorization: Basic; [ok] = what findUser answers *)
+Inductive basic := BNone | BCred (login pw : bytes).   (* Authorization: Basic, as r.BasicAuth() decodes it *)
 
 Record request := {
   r_method : bytes;
@@ -26,14 +26,51 @@ Record request := {
   r_basic : basic;
   r_tls : bool;              (* r.TLS != nil *)
   r_host_ok : bool;          (* netutil.SplitHost(r.Host) succeeds *)
+  r_hdrs : list (bytes * bytes);  (* every other header of the request (Origin, Access-Control-*, Upgrade,
+                                     X-Requested-With, X-Forwarded-For, ...): name, value *)
 }.
+
+(** * Accounts and bcrypt
+
+    [bcrypt.CompareHashAndPassword(hash, password)] is an oracle with three
+    answers: nil, [ErrMismatchedHashAndPassword], or any other error (the
+    stored hash is not usable: too short, unknown prefix / version, cost out
+    of range).  An account is (name, stored hash), in the order of
+    [Auth.users]. *)
+Inductive bc_res := BcOk | BcMismatch | BcError.
+Definition bc_oracle := bytes -> bytes -> bc_res.        (* stored hash, submitted password *)
+
+Definition bc_is_ok (r : bc_res) : bool := match r with BcOk => true | _ => false end.
+
+(** [Auth.findUser]: the first account whose name is the submitted one and
+    for which bcrypt answers nil.  [acc] says which oracle answers let an
+    account through; the code is [find_user := find_user_with bc_is_ok]. *)
+Fixpoint find_user_with (acc : bc_res -> bool) (bc : bc_oracle) (us : list (bytes * bytes)) (login pw : bytes)
+    : option (bytes * bytes) :=
+  match us with
+  | [] => None
+  | (n, h) :: us' =>
+      if eqb_bytes n login && acc (bc h pw) then Some (n, h) else find_user_with acc bc us' login pw
+  end.
+
+Definition find_user : bc_oracle -> list (bytes * bytes) -> bytes -> bytes -> option (bytes * bytes) :=
+  find_user_with bc_is_ok.
+
+(** A finite oracle, for the cases the harness emits: (hash, password,
+    answer) triples; anything else is "other error". *)
+Fixpoint bc_of (t : list (bytes * bytes * bc_res)) (h p : bytes) : bc_res :=
+  match t with
+  | [] => BcError
+  | (h', p', r) :: t' => if eqb_bytes h h' && eqb_bytes p p' then r else bc_of t' h p
+  end.
 
 (** * Environment: what the wrappers read besides the session table *)
 
 Record env := {
   e_first_run : bool;        (* globalContext.firstRun *)
   e_auth_present : bool;     (* globalContext.auth != nil: decided at start-up, see [boot] below *)
-  e_users : bool;            (* len(globalContext.auth.users) != 0 (false when there is no Auth) *)
+  e_accounts : list (bytes * bytes);  (* globalContext.auth.users: name, stored hash ([] when there is no Auth) *)
+  e_bcrypt : bc_oracle;      (* bcrypt.CompareHashAndPassword *)
   e_https : bool;            (* web.httpsServer.server != nil *)
   e_force_https : bool;      (* TLS.ForceHTTPS && TLS.Enabled && TLS.PortHTTPS != 0 *)
   e_now : N;                 (* clock, seconds *)
@@ -43,6 +80,7 @@ Record env := {
 (** [authRequired := globalContext.auth != nil && globalContext.auth.authRequired()]
     as optionalAuth computes it (GL-inet mode off: [authRequired()] is
     [len(a.users) != 0]). *)
+Definition e_users (e : env) : bool := match e_accounts e with [] => false | _ => true end.   (* len(a.users) != 0 *)
 Definition e_auth_required (e : env) : bool := e_auth_present e && e_users e.
 
 Record world (A : Type) := { w_app : A; w_sess : sstate }.
@@ -126,7 +164,16 @@ Definition check_cookie (e : env) (w : world A) (tok : bytes) : world A * bool :
   let '(s', res) := check_session (e_ttl e) (e_now e) tok (w_sess w) in
   ({| w_app := w_app w; w_sess := s' |}, match res with CSOK => true | _ => false end).
 
-(** [optionalAuth] with [optionalAuthThird] inlined. *)
+(** [_, isAuthenticated = globalContext.auth.findUser(user, pass)] on what
+    [r.BasicAuth()] yields. *)
+Definition basic_ok (e : env) (r : request) : bool :=
+  match r_basic r with
+  | BCred l p => match find_user (e_bcrypt e) (e_accounts e) l p with Some _ => true | None => false end
+  | BNone => false
+  end.
+
+(** [optionalAuth] with [optionalAuthThird] inlined.  Neither reads the
+    method nor any header besides Cookie and Authorization. *)
 Definition optional_auth (h : H) : H := fun e w r =>
   let p := r_path r in
   if eqb_bytes p str_login_html then
@@ -143,7 +190,7 @@ Definition optional_auth (h : H) : H := fun e w r =>
     let '(w', authed) :=
       match r_cookie r with
       | CTok tok => check_cookie e w tok
-      | CNone => (w, match r_basic r with BCred ok => ok | BNone => false end)
+      | CNone => (w, basic_ok e r)
       end in
     if authed then h e w' r
     else if eqb_bytes p str_slash || eqb_bytes p str_index then (w', ARedirect 302 str_login_rel)
@@ -247,7 +294,8 @@ Definition env_after (o : boot_out) (e : env) : Prop :=
   end.
 
 Definition with_boot (p u : bool) (e : env) : env :=
-  {| e_first_run := e_first_run e; e_auth_present := p; e_users := u; e_https := e_https e;
+  {| e_first_run := e_first_run e; e_auth_present := p; e_accounts := (if u then e_accounts e else []);
+     e_bcrypt := e_bcrypt e; e_https := e_https e;
      e_force_https := e_force_https e; e_now := e_now e; e_ttl := e_ttl e |}.
 
 (** * Routes, as the translator lists them *)
